@@ -164,6 +164,7 @@ func (e *Env) Key() string {
 }
 
 type TB struct {
+	notes    map[string]bool // scratch marks set by rule helpers during one traversal
 	W        *World
 	memo     map[string]*Term
 	inprog   map[string]bool
@@ -1352,4 +1353,11 @@ func (tb *TB) EqNorm(t *Term, want string, keepNames ...string) bool {
 		return true
 	}
 	return tb.Norm(t, keepNames...).String() == want
+}
+
+func (tb *TB) note(k string) {
+	if tb.notes == nil {
+		tb.notes = map[string]bool{}
+	}
+	tb.notes[k] = true
 }
